@@ -142,3 +142,46 @@ func replayPath(w *world.World, p *explore.PathReplay) (*world.State, error) {
 	}
 	return w.S.Clone(), nil
 }
+
+// lagPhase runs the monitors of prop over the progress closure (plus D
+// deviations) of the C02 seeds with a cache-lag bound: the reconciler then
+// also sees snapshots in which its own last writes are not yet visible.
+func lagPhase(rep *explore.Report, prop string, lag, D int, deadline time.Time) {
+	seeds := append(searchSeeds(c02Grids()), c09ExtraSeeds(false)...)
+	cfg := explore.SearchCfg{Prop: prop, D: D, Lag: lag, Judge: monitorOf(prop), Deadline: deadline,
+		Deviations: deviationsFor(devOpts{N: c02Grids()[0].N, MaxR: c02Grids()[0].MaxR, MaxSlots: 2, Edits: true, Regress: true})}
+	sub := explore.NewReport(prop, "model_checking")
+	g := explore.Search(sub, cfg, seeds)
+	sub.MergeInto(rep)
+	if !g.Complete {
+		rep.Exhaustive = false
+		rep.Cap = fmt.Sprintf("lag phase (L=%d, D=%d) stopped by its deadline after %d states", lag, D, len(g.Nodes))
+	}
+	rep.AddStates(int64(len(g.Nodes)), g.Transitions)
+	key := fmt.Sprintf("lag_phase_L%d_D%d", lag, D)
+	rep.Extra[key] = map[string]interface{}{"states": len(g.Nodes), "reconciles": g.Reconciles, "complete": g.Complete}
+}
+
+func lagPhases(rep *explore.Report, prop string) {
+	if explore.Tier() == "thorough" {
+		lagPhase(rep, prop, 1, 1, time.Now().Add(12*time.Minute))
+		lagPhase(rep, prop, 2, 0, time.Now().Add(4*time.Minute))
+		return
+	}
+	lagPhase(rep, prop, 1, 0, time.Now().Add(40*time.Second))
+}
+
+func init() {
+	register("lag", "lag <prop> <L> <D>: run only the stale-cache phase of a snapshot property (diagnostic)", func(args []string) int {
+		if len(args) != 3 {
+			return 2
+		}
+		var l, d int
+		fmt.Sscan(args[1], &l)
+		fmt.Sscan(args[2], &d)
+		rep := explore.NewReport(args[0], "model_checking")
+		rep.Rule = "diagnostic lag phase"
+		lagPhase(rep, args[0], l, d, time.Now().Add(15*time.Minute))
+		return rep.Finish()
+	})
+}
